@@ -731,6 +731,16 @@ class FT:
         out.append('goto %s;' % blabel(self.f, tl))
         return '{ ' + ' '.join(out) + ' }'
 
+    def yield_point(self):
+        self.nyield = getattr(self, 'nyield', 0) + 1
+        k = self.nyield
+        return 'if(verif_yield()) { pc__ = %d; return 0; } case %d: ;' % (k, k)
+
+    def instr_load_rest(self, tk, dest):
+        t = parse_type(tk); tk.expect(','); pt, p = self.typed_operand(tk)
+        d = self.define(dest, t)
+        return ['%s = *(%s*)%s;' % (d, ctype(t), p)]
+
     def instr(self, s):
         dest = None
         m = re.match(r'^(%"(?:[^"\\]|\\.)*"|%[-a-zA-Z$._0-9]+) = (.*)$', s)
@@ -811,14 +821,15 @@ class FT:
             self.decl[d + '__mem'] = ('mem', t, n)
             return ['%s = (P)&%s__mem;' % (d, d)]
         if op == 'load':
-            tk.accept('atomic'); tk.accept('volatile')
-            t = parse_type(tk); tk.expect(','); pt, p = self.typed_operand(tk)
-            d = self.define(dest, t)
-            return ['%s = *(%s*)%s;' % (d, ctype(t), p)]
+            is_atomic = tk.accept('atomic'); tk.accept('volatile')
+            if is_atomic and cname(self.f.name) in RESUMABLE:
+                return [self.yield_point()] + self.instr_load_rest(tk, dest)
+            return self.instr_load_rest(tk, dest)
         if op == 'store':
-            tk.accept('atomic'); tk.accept('volatile')
+            is_atomic = tk.accept('atomic'); tk.accept('volatile')
             t, v = self.typed_operand(tk); tk.expect(','); pt, p = self.typed_operand(tk)
-            return ['*(%s*)%s = %s;' % (ctype(t), p, v)]
+            pre = [self.yield_point()] if (is_atomic and cname(self.f.name) in RESUMABLE) else []
+            return pre + ['*(%s*)%s = %s;' % (ctype(t), p, v)]
         if op == 'getelementptr':
             tk.accept('inbounds')
             bt = parse_type(tk); tk.expect(','); pt, base = self.typed_operand(tk)
@@ -904,6 +915,7 @@ class FT:
             out.append('  default: %s' % self.edge(dflt)); out.append('}')
             return out
         if op == 'ret':
+            if cname(self.f.name) in RESUMABLE: return ['{ pc__ = -1; return 1; }']
             if tk.peek()[1] == 'void': return ['return;']
             t, v = self.typed_operand(tk); return ['return %s;' % v]
         if op == 'unreachable':
@@ -995,6 +1007,11 @@ class FT:
             return ['%s = %s;' % (d, call)]
         return [call + ';']
 
+    def intrinsic_nores(self, name, ret, args, dest):
+        a = [x for _, x in args]
+        base = name[6:].split('.')[0]
+        return ['%s(%s, %s, (size_t)%s);' % (base, a[0], a[1], a[2])]
+
     def intrinsic(self, name, ret, args, dest):
         n = name[6:]
         a = [x for _, x in args]
@@ -1003,6 +1020,10 @@ class FT:
             return []
         if base == 'stacksave':
             d = self.define(dest, ret); return ['%s = (P)0;' % d]
+        if base in ('memcpy', 'memmove') and cname(self.f.name) in RESUMABLE:
+            self._in_yield = True
+            rest = self.intrinsic_nores(name, ret, args, dest)
+            return [self.yield_point()] + rest
         if base in ('memcpy', 'memmove', 'memset'):
             m = re.fullmatch(r'\(\(uint64_t\)(\d+)ULL\)', a[2])
             if base == 'memcpy' and m and int(m.group(1)) % 8 == 0 and 0 < int(m.group(1)) <= 128 and a[0] not in BYTE_EXPRS and a[1] not in BYTE_EXPRS:
@@ -1065,6 +1086,7 @@ class FT:
 USED_FUNCS = {}
 STRS = {}
 ONCE_FUNCS = {'@harness'}
+RESUMABLE = set()   # C names of void(void) functions emitted as resumable step functions (own sequentialisation)
 ABI_OUT = {'@rtosc_argument': 'll_rtosc_argument', '@rtosc_itr_next': 'll_rtosc_itr_next'}
 USED_SHIMS = set()
 
@@ -1152,6 +1174,10 @@ def fn_proto(name, ret, params, vararg):
 
 def main():
     args = sys.argv[1:]
+    if '--resumable' in args:
+        i_ = args.index('--resumable')
+        RESUMABLE.update(args[i_ + 1].split(','))
+        del args[i_:i_ + 2]
     src = open(args[0]).read()
     parse_module(src)
     fts = {}
@@ -1161,6 +1187,8 @@ def main():
     declared = set()
     for name, f in M.funcs.items():
         protos.append(fn_proto(name, f.ret, f.cparams, f.vararg) + ';'); declared.add(cname(name))
+        if cname(name) in RESUMABLE:
+            protos.append('uint32_t %s__step(void);' % cname(name)); declared.add(cname(name) + '__step')
     for name, ft in M.decls.items():
         if name.startswith('@llvm.') or name in M.funcs: continue
         cn = cname(name)
@@ -1190,7 +1218,14 @@ def main():
     fb = []
     for name, ft in fts.items():
         f = ft.f
-        fb.append(fn_proto(name, f.ret, f.cparams, f.vararg) + ' {')
+        res = cname(name) in RESUMABLE
+        if res:
+            assert not f.cparams, 'resumable functions take no parameters'
+            fb.append('extern uint32_t verif_yield(void);')
+            fb.append('uint32_t %s__step(void) {  /* resumable form of %s: returns 1 when the thread body has finished */' % (cname(name), cname(name)))
+            fb.append('  static int pc__ = 0;')
+        else:
+            fb.append(fn_proto(name, f.ret, f.cparams, f.vararg) + ' {')
         pn = set(cname(p) for _, p in f.cparams)
         for v, t in ft.decl.items():
             if t == 'va_list': fb.append('  va_list %s;' % v)
@@ -1200,12 +1235,20 @@ def main():
                 # stack objects static storage -- cbmc propagates constants through statics but not
                 # through address-taken locals (e.g. the backing array of an initializer_list)
                 once = name.startswith('@_GLOBAL__sub_I') or name.startswith('@__cxx_global_var_init') or name in ONCE_FUNCS
-                fb.append('  %s%s %s[%d];' % ('static ' if once else '', ctype(mt), v, n))
+                fb.append('  %s%s %s[%d];' % ('static ' if (once or res) else '', ctype(mt), v, n))
             else:
                 if v in pn: continue
-                fb.append('  %s %s;' % (ctype(t), v))
-        fb.extend(ft.body)
-        fb.append('}')
+                fb.append('  %s%s %s;' % ('static ' if res else '', ctype(t), v))
+        if res:
+            fb.append('  switch(pc__) { case -1: return 1; case 0: ;')
+            fb.extend(ft.body)
+            fb.append('  }')
+            fb.append('  pc__ = -1; return 1;')
+            fb.append('}')
+            fb.append('void %s(void) { while(!%s__step()) ; }' % (cname(name), cname(name)))
+        else:
+            fb.extend(ft.body)
+            fb.append('}')
     fb.append('#ifndef __CPROVER__')
     for a, tgt in M.aliases.items():
         if tgt in M.funcs: fb.append('extern __typeof(%s) %s __attribute__((alias("%s")));' % (cname(tgt), cname(a), cname(tgt)))
